@@ -11,7 +11,9 @@
 
 mod exact;
 mod hist;
+mod hist_types;
 mod ingest;
+mod long;
 mod minmax;
 mod moments;
 mod pairs;
@@ -74,7 +76,9 @@ fn list(m: &HashMap<String, String>, k: &str, default: &str) -> Vec<String> {
 
 fn main() {
     // panics of the code under test are data; keep stderr quiet
-    std::panic::set_hook(Box::new(|_| {}));
+    if std::env::var("CONFORM_DEBUG").is_err() {
+        std::panic::set_hook(Box::new(|_| {}));
+    }
     let (cmd, m) = args_map();
     let threads: usize = m.get("threads").and_then(|s| s.parse().ok()).unwrap_or(12);
     rayon::ThreadPoolBuilder::new().num_threads(threads).build_global().ok();
@@ -148,7 +152,7 @@ fn main() {
             let want = hist::HWant { prop: m["prop"].clone() };
             vals.par_iter()
                 .fold(Report::default, |mut r, v| {
-                    hist::process_line(v, &want, &mut r);
+                    hist_types::process_line(v, &want, &mut r);
                     r
                 })
                 .reduce(Report::default, Report::merge)
@@ -184,6 +188,20 @@ fn main() {
             let reps: usize = m.get("reps").and_then(|s| s.parse().ok()).unwrap_or(2);
             let max_n: usize = m.get("max_n").and_then(|s| s.parse().ok()).unwrap_or(10_000);
             par::direct_rayon(seed, max_n, reps, &mut r);
+            r
+        }
+        ("direct", Some("long")) => {
+            let mut r = Report::default();
+            let seed: u64 = m.get("seed").and_then(|s| s.parse().ok()).unwrap_or(1);
+            let max_n: usize = m.get("max_n").and_then(|s| s.parse().ok()).unwrap_or(10_000);
+            long::direct_long(
+                &m["prop"],
+                seed,
+                max_n,
+                list(&m, "types", "Mean,Variance,Skewness,Kurtosis,Moments4,M6,M10"),
+                list(&m, "embeddings", "E0,E1,E2,E3,E4,E5"),
+                &mut r,
+            );
             r
         }
         _ => {
